@@ -22,7 +22,7 @@ PROPS = {
     "C02": dict(
         title="Instant <-> civil datetime under a fixed offset is exact and invertible",
         verus=["itime", ("itime", "_static", STATIC)],
-        kani_quick=[],
+        kani_quick=["c02_wrappers"],
         kani_thorough=[],
         design_ref="DESIGN.md section 4, C02",
     ),
@@ -76,6 +76,15 @@ PROPS = {
         design_ref="DESIGN.md section 4, C18",
         level_text="Narrow claim: the two copies of the shared time-zone core (src/shared/** used by jiff and the generated crates/jiff-static/src/shared/** used by the static-zone macros) each satisfy the SAME functional contracts (result == spec(args)) for the calendar core and the POSIX rule evaluation, hence agree with each other on every input; a drift in either copy fails a named obligation. Database back-ends, proc-macro expansion and slim/fat zic output are not covered (DESIGN.md section 4, C18).",
     ),
+    "C05": dict(
+        title="Fallible operations return errors: no panics, no out-of-range results",
+        verus=["posix", "tzif", "rounders", "sdur", "zoned"],
+        all_fns=True,
+        kani_quick=["c01_civil", "c02_wrappers"],
+        kani_thorough=[],
+        design_ref="DESIGN.md section 4, C05",
+        level_text="Per-function claim over an explicit list (evidence.coverage.functions_under_contract): every extracted function is verified by Verus to be free of panics (assert!/unreachable!/unwrap/expect/indexing), arithmetic overflow and failed debug assertions for ALL inputs satisfying its stated type invariants, and its Ok results satisfy the range stated in its postcondition; the ranged-integer wrappers in the Kani groups are checked bit-precisely for panics and for Ok values inside the type's range. Entry points not on the list are not covered.",
+    ),
 }
 
 NOT_APPLICABLE = {
@@ -85,4 +94,4 @@ NOT_APPLICABLE = {
 
 # properties with a design but no committed check yet (kept current as the build proceeds)
 NOT_YET = {p: "check not built yet in this session (design in DESIGN.md section 4); not claimed" for p in
-           ["C05", "C07", "C08", "C09", "C11", "C16", "C17", "C20"]}
+           ["C07", "C08", "C09", "C11", "C16", "C17", "C20"]}
